@@ -14,8 +14,11 @@ package server
 // Events (SCHED_PROTOCOL.md plus): `submitr m opts sess` = submit whose requester is the REAL Server.scheduleRunner
 // (models are installed in a real model store, GetModel / modelOptions / GetRunner / its select run); `ping r 2` = from
 // now on Ping of runner r parks (needsReload holds refMu) until `pingdone r 0|1` or until its 10 s context ends;
+// `ping r 3` = the same but the mock releases the caller's refMu while parked (the scheduler thread descheduled between
+// needsReload and useLoadedRunner);
 // `parallel n` (OLLAMA_NUM_PARALLEL, 0 = automatic), `gpumem 1` (GPU 1 has no room for a model: a second model does not
-// fit next to one still loading on GPU 0 and is put back on the queue), `closedelay ms` (Close of runners started from
+// fit next to one still loading on GPU 0 and is put back on the queue), `gpumem K` (K >= 2, one GPU: it reports K KiB
+// free, the real PredictServerFit decides; the generator bisects each model's fit boundary), `closedelay ms` (Close of runners started from
 // now on takes that much fake time; a runner is LIVE until Close has returned; closeCount in the observation counts
 // returned Close calls, closed is llama == nil as before).
 // Requesters of the GetRunner path whose request was cancelled before it was answered do not listen while the scheduler
@@ -28,9 +31,10 @@ package server
 // goroutine parks on a mutex).  So the line is always exactly what was executed, and replaying it reproduces it.
 //
 // L2 kinds: c01-closed-in-use c01-double-close c01-grant-closed c02-double-reply c02-blocked-submit c02-unanswered
-// c02-not-drained c11-over-limit c11-two-per-model c11-no-reuse c11-busy-victim (SCHED_PROTOCOL.md) and, in addition,
+// c02-not-drained c11-over-limit c11-two-per-model c11-no-reuse c11-victim-busy (SCHED_PROTOCOL.md) and, in addition,
 // c11-wrong-options (a runner is started with NumCtx != the request's NumCtx x the parallel factor passed),
-// c02-deadlock-queue / c02-deadlock-lockorder / c02-deadlock-handover (goroutines parked for good, see monitors();
+// c11-started-without-fit (a runner started next to loaded ones although its own estimate exceeds the free memory),
+// c02-deadlock-queue / -lockorder / -handover / -unconsumed (goroutines parked for good, see monitors();
 // once one of them fired the liveness monitors are silent for that trace).
 // c02-unanswered is evaluated at every quiescent point at which no load / Ping / Close is in flight, every request that
 // holds a runner is done and 300 ms of fake time have passed since the last event (at the very end of a drained trace
@@ -39,6 +43,8 @@ package server
 // Environment: VERIF_N (default 300), VERIF_SEED, VERIF_REPLAY=<file of script lines>, VERIF_SHRINK=1 (greedy shrinking of
 // one script per L2 kind -> shrunk.txt in VERIF_OUT), VERIF_SCHED_CFG="<maxRunners> <maxQueue> <defSess> <cpu> <ngpus>"
 // (pins configuration fields of generated traces, `-` = random), VERIF_SCHED_LOG=<file> (the scheduler's debug log),
+// VERIF_CORPUS=<dir> (scripts run before the generated ones), VERIF_EXTEND=1 (with VERIF_REPLAY: drain-and-probe suffix
+// after each script, see schedExtend), VERIF_TIER (quick: at most 6 requests per generated trace),
 // VERIF_SCHED_NOBLOCKPING=1 (no blocking pings).
 // Not meant for -race: at quiescent points with mutex-parked goroutines the driver reads scheduler state unlocked.
 //
@@ -91,6 +97,7 @@ import (
 	"sort"
 	"strconv"
 	"strings"
+	"syscall"
 	"testing"
 	"testing/synctest"
 	"time"
@@ -106,7 +113,7 @@ import (
 
 const (
 	schedNModels      = 3
-	schedMaxReqs      = 16
+	schedMaxReqs      = 24
 	schedReschedDelay = 100 * time.Millisecond
 	schedShort        = 50 * time.Millisecond
 	schedLong         = time.Hour
@@ -255,6 +262,7 @@ type schedMock struct {
 	closeAt      time.Time
 	closeRel     chan struct{}
 	pingBlock    bool // Ping parks until the script releases it (`pingdone`) or its ctx ends
+	pingOpen     bool // ... and lets go of the caller's refMu while parked (`ping r 3`)
 	pinging      bool
 	pingDeadline time.Time
 	pingRel      chan error
@@ -277,12 +285,25 @@ func (m *schedMock) Ping(ctx context.Context) error {
 		// needsReload calls Ping with refMu held and a 10 s (2 min while loading) timeout on the SCHEDULER's context
 		m.pinging = true
 		m.pingDeadline, _ = ctx.Deadline()
+		// open window (`ping r 3`): Ping is the last thing needsReload evaluates; parking here with the caller's refMu
+		// released is the scheduler thread being descheduled right after needsReload returned "usable" and before
+		// useLoadedRunner takes refMu again - everything else (keep-alive expiry, unload, finished events) may run
+		var ref *runnerRef
+		if m.pingOpen {
+			if ref = m.r.refs[m.id]; ref != nil {
+				m.r.stats["ping_open_window"]++
+				ref.refMu.Unlock()
+			}
+		}
 		var err error
 		select {
 		case err = <-m.pingRel:
 		case <-ctx.Done():
 			err = ctx.Err()
 			m.r.stats["ping_ctx_ended"]++
+		}
+		if ref != nil {
+			ref.refMu.Lock()
 		}
 		m.pinging = false
 		return err
@@ -356,6 +377,7 @@ type schedSnap struct {
 	sess     []time.Duration
 	closed   []bool
 	closing  []bool // Close has been called (it may not have returned yet)
+	ppIdle   bool   // processPending was parked in its top-level select
 }
 
 type schedL2 struct{ kind, detail string }
@@ -400,17 +422,21 @@ type schedRun struct {
 	stats    map[string]int
 	noReuse  []string
 	wrongOpt []string
+	noFit    []string
 
 	srv        *Server
 	closeDelay time.Duration // for runners started from now on (`closedelay`)
 	gpumem     int           // `gpumem`
 	routedWait int           // scheduleRunner calls that have not returned
 	inWindow   bool
+	mutexSince int64 // wall clock (us) at which goroutines were first seen parked on a mutex
 }
 
 type schedCensus struct {
 	others, active, mutex, sleeping, durable int
 	schedSend, handover                      int
+	ppIdle, ppWaitUnload, pcIdle             bool // where the two scheduler loops are parked
+	ppSelect, sendChans                      string
 	activeDesc, mutexDesc                    string
 }
 
@@ -531,6 +557,30 @@ func (r *schedRun) scan(b []byte, c *schedCensus, ids map[string]bool) {
 				// a delayed request waits for room in the pending queue: processPending may be waiting for a `done`
 			case src != "":
 				c.schedSend++
+				// which channel: the text before "<-" on that source line
+				if i := strings.Index(src, "<-"); i > 0 {
+					l := append(strings.Split(c.sendChans, ","), strings.TrimSpace(src[:i]))
+					if c.sendChans == "" {
+						l = l[1:]
+					}
+					sort.Strings(l)
+					c.sendChans = strings.Join(l, ",")
+				}
+			}
+		case strings.HasPrefix(st, "select") && bytes.HasPrefix(b, []byte("github.com/ollama/ollama/server.(*Scheduler).process")):
+			// one of the two loops, parked in one of ITS OWN selects (the first frame is the loop itself)
+			c.durable++
+			blk := b
+			if e := bytes.Index(blk, []byte("\n\n")); e >= 0 {
+				blk = blk[:e]
+			}
+			switch sel := schedSelectCases(blk); {
+			case bytes.HasPrefix(b, []byte("github.com/ollama/ollama/server.(*Scheduler).processCompleted(")):
+				c.pcIdle = true
+			case strings.Contains(sel, "s.pendingReqCh"):
+				c.ppIdle, c.ppSelect = true, sel
+			case strings.Contains(sel, "s.unloadedCh"):
+				c.ppWaitUnload, c.ppSelect = true, sel // "waiting for pending requests to complete and unload to occur"
 			}
 		case strings.HasSuffix(st, "(durable)") || st == "chan receive (nil chan)" || st == "chan send (nil chan)" ||
 			st == "select (no cases)" || st == "sync.Cond.Wait":
@@ -569,6 +619,33 @@ func schedSendSite(blk []byte) string {
 		return lines[n-1]
 	}
 	return ""
+}
+
+// schedSelectCases returns the text of the select statement of sched.go in which the goroutine of this block is parked
+func schedSelectCases(blk []byte) string {
+	i := bytes.Index(blk, []byte("/sched.go:"))
+	if i < 0 {
+		return ""
+	}
+	schedSendSite(blk) // loads the file
+	st := bytes.LastIndexByte(blk[:i], '\t')
+	lines := schedSrc[string(blk[st+1:i+len("/sched.go")])]
+	n := 0
+	for e := i + len("/sched.go:"); e < len(blk) && blk[e] >= '0' && blk[e] <= '9'; e++ {
+		n = n*10 + int(blk[e]-'0')
+	}
+	if n < 1 || n > len(lines) || !strings.Contains(lines[n-1], "select {") {
+		return ""
+	}
+	indent := lines[n-1][:len(lines[n-1])-len(strings.TrimLeft(lines[n-1], "\t"))]
+	var sb strings.Builder
+	for j := n; j < len(lines) && lines[j] != indent+"}"; j++ {
+		if strings.HasPrefix(lines[j], indent+"case ") {
+			sb.WriteString(lines[j])
+			sb.WriteByte('\n')
+		}
+	}
+	return sb.String()
 }
 
 // quiesce returns when every other goroutine of the bubble is parked (durably or on a mutex).  On the way it lets the
@@ -618,8 +695,17 @@ func (r *schedRun) quiesce() {
 	}
 	if r.cen.mutex == 0 {
 		synctest.Wait()
+		r.mutexSince = 0
 	} else {
 		r.stats["q_mutex_parked"]++
+		// sync.Mutex hands a lock over directly (instead of letting a running goroutine barge in) once a waiter has waited
+		// for more than 1 ms of REAL time.  Let every waiter that is parked at a quiescent point cross that threshold, so
+		// that the hand-off order after the next event does not depend on how fast the driver happens to run.
+		if r.mutexSince == 0 {
+			r.mutexSince = schedRealNow()
+		}
+		for schedRealNow()-r.mutexSince < 1500 {
+		}
 	}
 	now := time.Now()
 	k := 0
@@ -635,6 +721,13 @@ func (r *schedRun) quiesce() {
 		// stopped at, so stopping again 10 ms and reschedDelay after EVERY stop never skips a wake-up
 		r.cands = append(r.cands, now.Add(10*time.Millisecond), now.Add(schedReschedDelay))
 	}
+}
+
+// schedRealNow: wall clock in microseconds (time.Now is fake inside the bubble)
+func schedRealNow() int64 {
+	var tv syscall.Timeval
+	syscall.Gettimeofday(&tv)
+	return int64(tv.Sec)*1000000 + int64(tv.Usec)
 }
 
 // ctl pauses / resumes the requester goroutine of q (which is parked in its select).
@@ -739,7 +832,12 @@ func (r *schedRun) gpus() discover.GpuInfoList {
 		g := discover.GpuInfo{Library: "metal", ID: strconv.Itoa(i)}
 		g.TotalMemory = 24 * format.GigaByte
 		g.FreeMemory = uint64(12-i) * format.GigaByte
-		if i > 0 && r.gpumem == 1 {
+		if i == 0 && r.gpumem >= 2 {
+			// `gpumem K`, K >= 2: GPU 0 reports K KiB free (what other applications / the loaded models leave): the real
+			// PredictServerFit / updateFreeSpace decide between "start next to the loaded runners" and "evict first"
+			g.FreeMemory = uint64(r.gpumem) * format.KibiByte
+		}
+		if i > 0 && r.gpumem >= 1 {
 			// too little for any model: a second model does not fit next to one that is still loading on GPU 0, so the
 			// request is put back on the queue (reschedDelay) and pickBestFullFitByLibrary's back-off runs
 			g.FreeMemory = 64 * format.KibiByte
@@ -802,6 +900,35 @@ func (r *schedRun) setup() {
 				r.stats["sc_load_again"]++
 			}
 		}
+		// "while other models are loaded, a new runner is started only on GPUs where it is predicted to fit in the memory
+		// those models leave free": the GPU list handed over carries the free memory after updateFreeSpace; the estimate the
+		// runner itself would make (llm.NewLlamaServer calls EstimateGPULayers on these inputs) must not plan more than that
+		if len(gpus) > 0 && gpus[0].Library != "cpu" {
+			others := 0
+			locked := r.s.loadedMu.TryLock()
+			for _, ref := range r.s.loaded {
+				if ref.llama != nil {
+					others++
+				}
+			}
+			if locked {
+				r.s.loadedMu.Unlock()
+			}
+			if others > 0 {
+				est := llm.EstimateGPULayers(gpus, f, projectors, opts, numParallel)
+				r.stats["sc_started_next_to_loaded"]++
+				for i := range gpus {
+					if i < len(est.GPUSizes) && est.GPUSizes[i] > gpus[i].FreeMemory {
+						r.noFit = append(r.noFit, fmt.Sprintf("runner for model %d started next to %d loaded runner(s): its estimate plans %d bytes on GPU %s, which has %d bytes free (short by %d)",
+							mi, others, est.GPUSizes[i], gpus[i].ID, gpus[i].FreeMemory, est.GPUSizes[i]-gpus[i].FreeMemory))
+					}
+				}
+				if est.Layers < int(f.KV().BlockCount())+1 {
+					r.noFit = append(r.noFit, fmt.Sprintf("runner for model %d started next to %d loaded runner(s) although only %d of %d layers fit the free memory",
+						mi, others, est.Layers, f.KV().BlockCount()+1))
+				}
+			}
+		}
 		if mi >= 0 && r.failStart[mi] {
 			r.stats["sc_newserver_fail"]++
 			return nil, errors.New("verif: runner did not start")
@@ -850,7 +977,7 @@ func (r *schedRun) setup() {
 }
 
 func (r *schedRun) snap() schedSnap {
-	sn := schedSnap{loaded: map[int]int{}}
+	sn := schedSnap{loaded: map[int]int{}, ppIdle: r.cen.ppIdle}
 	// everything else is parked; loadedMu may be held by a parked expireRunner, so do not insist on it
 	locked := r.s.loadedMu.TryLock()
 	for path, ref := range r.s.loaded {
@@ -960,7 +1087,9 @@ func (r *schedRun) enabled(e schedEv) bool {
 	case "parallel":
 		return e.a >= 0 && e.a <= 8
 	case "gpumem":
-		return e.a == 0 || e.a == 1
+		// K >= 2 only with a single GPU: a runner placed on two GPUs (spread, or a partial first load) makes the real
+		// waitForVRAMRecovery poll discover.GetGPUInfo for 5 s
+		return e.a == 0 || e.a == 1 || e.a <= 1<<30 && r.cfg.cpu == 0 && r.cfg.ngpus == 1
 	case "closedelay":
 		return e.a >= 0 && e.a <= 1000
 	case "pingdone":
@@ -970,7 +1099,7 @@ func (r *schedRun) enabled(e schedEv) bool {
 	case "loaddone":
 		return e.a >= 0 && e.a < len(r.mocks) && r.mocks[e.a].waiting && (e.b == 0 || e.b == 1)
 	case "ping":
-		return e.a >= 0 && e.a < len(r.mocks) && (e.b == 0 || e.b == 1 || e.b == 2) && !r.mocks[e.a].pinging
+		return e.a >= 0 && e.a < len(r.mocks) && e.b >= 0 && e.b <= 3 && !r.mocks[e.a].pinging
 	case "unload":
 		return e.a >= 0 && e.a < schedNModels
 	case "failstart":
@@ -1103,10 +1232,10 @@ func (r *schedRun) apply(e schedEv) bool {
 			r.mocks[e.a].rel <- errors.New("verif: load failed")
 		}
 	case "ping":
-		if e.b == 2 {
-			r.mocks[e.a].pingBlock = true
+		if m := r.mocks[e.a]; e.b >= 2 {
+			m.pingBlock, m.pingOpen = true, e.b == 3
 		} else {
-			r.mocks[e.a].pingOK, r.mocks[e.a].pingBlock = e.b == 1, false
+			m.pingOK, m.pingBlock, m.pingOpen = e.b == 1, false, false
 		}
 	case "pingdone":
 		if e.b == 1 {
@@ -1240,6 +1369,10 @@ func (r *schedRun) monitors(e schedEv, subq *schedReq, sn schedSnap) {
 		r.flag("c11-wrong-options", d)
 	}
 	r.wrongOpt = nil
+	for _, d := range r.noFit {
+		r.flag("c11-started-without-fit", d)
+	}
+	r.noFit = nil
 	// C02: submit never blocks, and answers ErrMaxQueue exactly when the queue is full
 	if subq != nil {
 		switch {
@@ -1297,8 +1430,40 @@ func (r *schedRun) monitors(e schedEv, subq *schedReq, sn schedSnap) {
 			}
 			r.stats["sc_evict_busy"]++
 			for _, oid := range r.prev.loaded {
-				if oid >= 0 && oid != id && r.prev.refCount[oid] == 0 && !r.mocks[oid].waiting {
-					r.flag("c11-busy-victim", fmt.Sprintf("runner %d (refCount %d) chosen for eviction while runner %d was idle", id, r.prev.refCount[id], oid))
+				// (still loaded and idle now: it was not unloaded by an earlier decision for the same request, e.g. a reload)
+				if cur, ok := sn.loaded[r.mocks[max(oid, 0)].model]; oid >= 0 && oid != id && r.prev.refCount[oid] == 0 && !r.mocks[oid].waiting &&
+					ok && cur == oid && sn.refCount[oid] == 0 && !sn.closing[oid] {
+					r.flag("c11-victim-busy", fmt.Sprintf("runner %d (refCount %d) chosen for eviction while runner %d was idle", id, r.prev.refCount[id], oid))
+				}
+			}
+		}
+	}
+	// making room evicts an idle runner when one exists.  A submit only enqueues; processPending was idle, so it took THIS
+	// request and decided on exactly the previous quiescent state.  The request's model was not loaded (no reload), and
+	// now processPending waits for an unload although a runner that was idle then is still loaded and idle, nothing is
+	// closing and processCompleted has nothing left to do: the victim it waits for is a busy one.
+	if subq != nil && r.prev.ppIdle && r.cen.ppWaitUnload && r.cen.pcIdle && r.cen.mutex == 0 && subq.replies() == 0 {
+		if _, reload := r.prev.loaded[e.a]; !reload {
+			closing := false
+			for _, m := range r.mocks {
+				if m.closing || m.waiting && r.prev.loaded[m.model] != m.id {
+					closing = true
+				}
+			}
+			for _, id := range r.prev.loaded {
+				if closing || id < 0 || r.prev.refCount[id] != 0 || r.prev.closing[id] || r.mocks[id].waiting || r.mocks[id].pinging {
+					continue
+				}
+				if cur, ok := sn.loaded[r.mocks[id].model]; ok && cur == id && sn.refCount[id] == 0 && !sn.closing[id] {
+					var busy []string
+					for _, b := range sn.loaded {
+						if b >= 0 && sn.refCount[b] > 0 && sn.sess[b] == 0 {
+							busy = append(busy, fmt.Sprintf("%d (refCount %d)", b, sn.refCount[b]))
+						}
+					}
+					sort.Strings(busy)
+					r.flag("c11-victim-busy", fmt.Sprintf("request %d (model %d) waits for the unload of a busy runner (expired while in use: %s) although runner %d (model %d) is loaded and idle",
+						subq.id, e.a, strings.Join(busy, ", "), id, r.mocks[id].model))
 				}
 			}
 		}
@@ -1312,7 +1477,13 @@ func (r *schedRun) monitors(e schedEv, subq *schedReq, sn schedSnap) {
 		r.flag("c02-deadlock-handover", fmt.Sprintf("%d goroutines parked in the hand-over of a runner to a requester that is no longer listening (%d more parked on a mutex: %s)",
 			r.cen.handover, r.cen.mutex, r.cen.mutexDesc))
 	}
-	if (r.cen.mutex > 0 || r.cen.schedSend > 0) && r.cen.sleeping == 0 && r.cen.handover == 0 {
+	if strings.Contains(r.cen.sendChans, "s.unloadedCh") && r.cen.ppSelect != "" && !strings.Contains(r.cen.ppSelect, "s.unloadedCh") {
+		// processCompleted reports every unload on unloadedCh; processPending is parked in a select that does not
+		// receive from it, so nobody will ever take the event: processCompleted is parked for good (no finished or expired
+		// event is handled any more)
+		r.flag("c02-deadlock-unconsumed", fmt.Sprintf("processCompleted is parked sending on unloadedCh (capacity %d, full) while processPending is parked in a select without a receive from it (cases: %s)",
+			r.cfg.maxQueue, strings.Join(strings.Fields(r.cen.ppSelect), " ")))
+	} else if (r.cen.mutex > 0 || r.cen.schedSend > 0) && r.cen.sleeping == 0 && r.cen.handover == 0 {
 		// (a send on finishedReqCh / expiredCh / unloadedCh that is still parked now: its consumer loop is parked on a
 		// mutex or on a full channel itself - processCompleted sends on expiredCh, which only it drains)
 		inflight := false
@@ -1323,8 +1494,8 @@ func (r *schedRun) monitors(e schedEv, subq *schedReq, sn schedSnap) {
 		}
 		if !inflight && r.cen.schedSend > 0 {
 			// e.g. expireRunner holds loadedMu+refMu and sends on the full expiredCh, whose only consumer needs one of them
-			r.flag("c02-deadlock-queue", fmt.Sprintf("%d goroutines parked on a mutex (%s) and %d scheduler goroutines parked on a send to a full channel (capacity %d), no load in flight",
-				r.cen.mutex, r.cen.mutexDesc, r.cen.schedSend, r.cfg.maxQueue))
+			r.flag("c02-deadlock-queue", fmt.Sprintf("%d goroutines parked on a mutex (%s) and %d scheduler goroutines parked on a send to a full channel (capacity %d), no load in flight; channels: %s",
+				r.cen.mutex, r.cen.mutexDesc, r.cen.schedSend, r.cfg.maxQueue, r.cen.sendChans))
 		} else if !inflight {
 			// a cycle of mutexes only: lock-order inversion (loadedMu -> refMu in expireRunner / updateFreeSpace,
 			// refMu -> loadedMu in processCompleted's expired case)
@@ -1335,7 +1506,7 @@ func (r *schedRun) monitors(e schedEv, subq *schedReq, sn schedSnap) {
 	// still waiting must have been answered
 	// (in a wedged trace the liveness monitors below would only repeat the deadlock)
 	settled := r.cen.mutex == 0 && time.Since(r.lastAct) >= schedSettle && !r.l2seen["c02-deadlock-queue"] &&
-		!r.l2seen["c02-deadlock-lockorder"] && !r.l2seen["c02-deadlock-handover"]
+		!r.l2seen["c02-deadlock-lockorder"] && !r.l2seen["c02-deadlock-handover"] && !r.l2seen["c02-deadlock-unconsumed"]
 	for _, m := range r.mocks {
 		if m.waiting || m.pinging || m.closing {
 			settled = false
@@ -1511,6 +1682,42 @@ func schedRunOne(t *testing.T, models []*Model, cfg schedCfg, src schedSource, o
 	return res
 }
 
+var schedOutputBytes = [schedNModels]int{32, 1 << 20, 4 << 20}
+
+// schedGGML: the decoded GGUF metadata of the models (for the generator's search of the fit boundary)
+var schedGGML [schedNModels]*ggml.GGML
+
+// schedFitBoundary returns the smallest free memory (KiB) of a single metal GPU at which the REAL llm.PredictServerFit says
+// that model m with options class k and parallel factor np fits completely (bisection).
+var schedBoundaryCache = map[[3]int]int{}
+
+func schedFitBoundary(m, k, np int) int {
+	key := [3]int{m, k, np}
+	if v, ok := schedBoundaryCache[key]; ok {
+		return v
+	}
+	opts := api.DefaultOptions()
+	opts.NumCtx = (8 + 8*k) * max(1, np)
+	fits := func(kib int) bool {
+		g := discover.GpuInfo{Library: "metal", ID: "0"}
+		g.TotalMemory = 24 * format.GigaByte
+		g.FreeMemory = uint64(kib) * format.KibiByte
+		ok, _ := llm.PredictServerFit(discover.GpuInfoList{g}, schedGGML[m], nil, nil, opts, max(1, np))
+		return ok
+	}
+	lo, hi := 0, 1<<24 // 16 GiB
+	for lo+1 < hi {
+		if mid := (lo + hi) / 2; fits(mid) {
+			hi = mid
+		} else {
+			lo = mid
+		}
+	}
+	schedBoundaryCache[key] = hi
+	slog.Debug("verif fit boundary", "model", m, "opts", k, "parallel", np, "KiB", hi)
+	return hi
+}
+
 // schedModels installs (create) or opens the models in a real model store under dir (OLLAMA_MODELS): manifest + config
 // blob + one tiny GGUF blob per model, so that GetModel - and therefore Server.scheduleRunner - works.  The scheduler
 // orders eviction victims by model path, i.e. by blob digest: the GGUFs carry a nonce chosen so that the digests are
@@ -1549,7 +1756,9 @@ func schedModels(dir string, create bool) ([]*Model, error) {
 					"tokenizer.ggml.token_type":     []int32{0},
 				}, []ggml.Tensor{
 					{Name: "blk.0.attn.weight", Kind: uint32(0), Offset: uint64(0), Shape: []uint64{1, 1, 1, 1}, WriterTo: bytes.NewReader(make([]byte, 32))},
-					{Name: "output.weight", Kind: uint32(0), Offset: uint64(0), Shape: []uint64{1, 1, 1, 1}, WriterTo: bytes.NewReader(make([]byte, 32))},
+					// an output layer of 32 B / 1 MiB / 4 MiB (F32): with a sizeable one there are free-memory values at which
+					// all layers and the output fit a GPU but the compute graph does not
+					{Name: "output.weight", Kind: uint32(0), Offset: uint64(0), Shape: []uint64{uint64(schedOutputBytes[i] / 4)}, WriterTo: bytes.NewReader(make([]byte, schedOutputBytes[i]))},
 				})
 				f.Close()
 				if err == nil {
@@ -1588,6 +1797,9 @@ func schedModels(dir string, create bool) ([]*Model, error) {
 		}
 		m, err := GetModel(name)
 		if err != nil {
+			return nil, err
+		}
+		if schedGGML[i], err = llm.LoadModel(m.ModelPath, 0); err != nil {
 			return nil, err
 		}
 		if len(ms) > 0 && ms[len(ms)-1].ModelPath >= m.ModelPath {
@@ -1657,11 +1869,14 @@ func schedChild(t *testing.T) {
 				continue
 			}
 			cfg, src = c, &schedFixed{evs: evs}
+			if os.Getenv("VERIF_EXTEND") != "" {
+				src = newSchedExtend(evs, job)
+			}
 		}
 		emit := func(res *schedResult) {
 			fmt.Fprintf(w, "C\t%s\n", res.line)
 			for _, l := range res.l2 {
-				fmt.Fprintf(w, "L\t%s\t%s\t%s\n", l.kind, res.script, l.detail)
+				fmt.Fprintf(w, "L\t%s\t%s\t%s\n", l.kind, res.script, strings.Join(strings.Fields(l.detail), " "))
 			}
 			keys := make([]string, 0, len(res.stats))
 			for k := range res.stats {
@@ -1746,6 +1961,9 @@ func schedRunJobs(t *testing.T, testName string, dir string, jobs []schedJob) []
 		if last < start {
 			// the child made no progress: trace `start` hangs or crashes the driver
 			tail := string(outb)
+			if dbg := os.Getenv("VERIF_SCHED_CHILDLOG"); dbg != "" {
+				os.WriteFile(dbg, outb, 0o644)
+			}
 			if len(tail) > 3000 {
 				tail = tail[len(tail)-3000:]
 			}
@@ -1811,6 +2029,7 @@ func schedRuntimeDeterminism(t *testing.T) (sel, timers, maps bool) {
 		synctest.Test(t, func(t *testing.T) {
 			got := make(chan string, 2)
 			go func() { time.Sleep(time.Second); got <- "A" }()
+			synctest.Wait() // A sleeps before B starts: the order in which the timers are created is fixed
 			go func() { time.Sleep(time.Second); got <- "B" }()
 			orders[<-got+<-got] = true
 		})
